@@ -440,3 +440,22 @@ Lemma gen_stream_sample_spec {C} (stream : nat -> C) n pos r :
   (fst (stream_take_gen stream n pos r),
    (snd (stream_take_gen stream n pos r), match shuffled_sampler_next_round r with Some r' => r' | None => r end)).
 Proof. reflexivity. Qed.
+
+(* ------------------------------------------------------------------ *)
+(* how much of the client stream a streaming sampler has consumed        *)
+
+Fixpoint s_after {C} (stream : nat -> C) (n : Z) (k : nat) (st : nat * Z) : nat * Z :=
+  match k with O => st | S k' => s_after stream n k' (snd (s_sample stream n st)) end.
+
+(* constructed at round `start` and sampled k times: exactly (start + k) * n calls of next(),
+   and the round counter is start + k *)
+Lemma stream_position {C} (stream : nat -> C) (n start : Z) (k : nat) :
+  s_after stream n k (s_init n start) = (((Z.to_nat start + k) * Z.to_nat n)%nat, start + Z.of_nat k).
+Proof.
+  rewrite s_init_spec.
+  assert (G : forall k pos r, s_after stream n k (pos, r) = ((pos + k * Z.to_nat n)%nat, r + Z.of_nat k)).
+  { induction k0 as [|k0 IH]; intros pos r; cbn [s_after].
+    - f_equal; lia.
+    - rewrite s_sample_spec. cbn [snd]. rewrite IH. f_equal; lia. }
+  rewrite G. f_equal; lia.
+Qed.
